@@ -36,6 +36,9 @@ RULE = ("sweep: one case per (configuration, clause, Z, A) where clause is one o
         "non-trivial = val(unc) whose unc digit count differs from the number of decimals of val, or a [low,high] "
         "range; distinct by string.")
 ASSUMPTIONS = [
+    "init(table, reload=flag): reload is a plain flag (documented default reload=False); the truthy values True, 1 and "
+    "numpy.True_ all request a re-initialisation (each on its own customised table, which must then equal the embedded "
+    "tables again), the falsy values False, 0, None, numpy.False_ and the default must leave a customised table as it is",
     "table rows are laid out by columns: a value cell is a blank-free token or a bracketed group, and blanks inside "
     "[low, high] do not change the interval it denotes; a cell that is in none of the documented notations is "
     "reported as c06:table:unreadable-cell together with what the library serves for it (the clauses that need it "
@@ -68,20 +71,39 @@ CONFIGS = ("public", "private-only", "private-after-public", "private-second", "
 
 # Reload configurations "reload:<x>:<view>": table <x> (a private table, or the public table itself) is
 # initialised, customised the way doc/sphinx/guide/customizing.rst does (H=1 rescaling of every el._mass,
-# iso._mass, el._density; plus a few assigned abundances), and re-initialised with
-# mass.init(x, reload=True) + density.init(x, reload=True).  <view> says which table is looked at and when:
-# (stage required: 0 initialised, 1 customised, 2 reloaded; looked-at table: self / the other table)
+# iso._mass, el._density; plus a few assigned abundances), then mass.init/density.init are called with every
+# falsy reload flag (False, 0, None, numpy.False_: the customised values must survive), and finally it is
+# re-initialised with mass.init(x, reload=<flag>) + density.init(x, reload=<flag>) where <flag> is the truthy value
+# of that <x> (the parameter is a plain flag, "reload=False"; True, 1 and numpy.True_ all mean "reload").
+# <view> says which table is looked at and when (stage required: 0 initialised, 1 customised, 2 falsy inits done,
+# 3 reloaded; looked-at table: self / the other table)
+XS = {"private": ("private", "True"), "private-int": ("private", "1"), "private-np": ("private", "numpy.True_"),
+      "public": ("public", "True"), "public-np": ("public", "numpy.True_")}
 RELOAD = {
     "reload:private:fresh": ("private", 0, "self"),
-    "reload:private:customised": ("private", 1, "self"),                  # kind 'custom' cases only
     "reload:private:public-while-customised": ("private", 1, "other"),
     "reload:private:second-private-while-customised": ("private", 1, "other2"),
-    "reload:private:reloaded": ("private", 2, "self"),
-    "reload:public:customised": ("public", 1, "self"),                    # kind 'custom' cases only
     "reload:public:private-while-customised": ("public", 1, "other"),
-    "reload:public:reloaded": ("public", 2, "self"),
-    "reload:public:private-after-reload": ("public", 2, "other"),
+    "reload:public:private-after-reload": ("public", 3, "other"),
 }
+CUSTOM_CONFIGS = set()                                                   # kind 'custom' cases only
+for _x in XS:
+    RELOAD["reload:%s:customised" % _x] = (_x, 1, "self")
+    RELOAD["reload:%s:customised-after-falsy-init" % _x] = (_x, 2, "self")
+    RELOAD["reload:%s:reloaded" % _x] = (_x, 3, "self")
+    CUSTOM_CONFIGS.update(["reload:%s:customised" % _x, "reload:%s:customised-after-falsy-init" % _x])
+
+
+def _flag(name):
+    import numpy
+    return {"True": True, "1": 1, "numpy.True_": numpy.True_}[name]
+
+
+def _falsy():
+    import numpy
+    return [False, 0, None, numpy.False_]
+
+
 CUSTOM_ABUNDANCE = {(1, 1): 50.0, (1, 2): 50.0, (43, 99): 100.0, (92, 235): 3.5, (92, 238): 96.5}
 
 _O = {}
@@ -97,8 +119,8 @@ def reload_env(config):
     st_ = _RELOAD_STATE.get(x)
     if st_ is None:
         pub = periodictable.elements
-        if x == "private":
-            t = core.PeriodicTable("c06-reload")
+        if XS[x][0] == "private":
+            t = core.PeriodicTable("c06-reload-" + x)
             mass.init(t)
             density.init(t)
             other = pub
@@ -128,17 +150,24 @@ def reload_env(config):
             t[z][a]._abundance = v
         st_["scale"] = scale
         st_["stage"] = 1
-        if x == "private":
-            t2 = core.PeriodicTable("c06-reload-second")          # initialised while the first is customised
+        if XS[x][0] == "private":
+            t2 = core.PeriodicTable("c06-reload-second-" + x)     # initialised while the first is customised
             mass.init(t2)
             density.init(t2)
             st_["other2"] = t2
     if st_["stage"] < 2 <= stage:
+        for f in _falsy():                                        # "do not reload": nothing may be re-read
+            mass.init(t, reload=f)
+            density.init(t, reload=f)
+        mass.init(t)
+        density.init(t)
+        st_["stage"] = 2
+    if st_["stage"] < 3 <= stage:
         for el in t:                                              # the customised values are served and read first
             _ = (el.mass, el.density, el.number_density, [(i.mass, i.abundance, i.density) for i in el])
-        mass.init(t, reload=True)
-        density.init(t, reload=True)
-        st_["stage"] = 2
+        mass.init(t, reload=_flag(XS[x][1]))
+        density.init(t, reload=_flag(XS[x][1]))
+        st_["stage"] = 3
     return st_["table"] if view == "self" else st_[view]
 
 
@@ -688,7 +717,7 @@ def sweep_custom(ctx, config):
 
 def task_sweep(ctx, configs):
     for c in configs:
-        if c.endswith(":customised"):
+        if c in CUSTOM_CONFIGS:
             sweep_custom(ctx, c)
         else:
             sweep(ctx, c)
@@ -781,10 +810,20 @@ def tasks(tier):
            ("sweep-after-custom", task_sweep, dict(configs=["public-after-custom", "private-after-custom"])),
            ("sweep-private-reload", task_sweep,
             dict(configs=["reload:private:fresh", "reload:private:customised", "reload:private:public-while-customised",
-                          "reload:private:second-private-while-customised", "reload:private:reloaded"])),
+                          "reload:private:second-private-while-customised", "reload:private:customised-after-falsy-init",
+                          "reload:private:reloaded"])),
+           ("sweep-private-reload-flags", task_sweep,
+            dict(configs=["reload:private-int:customised", "reload:private-int:customised-after-falsy-init",
+                          "reload:private-int:reloaded",
+                          "reload:private-np:customised", "reload:private-np:customised-after-falsy-init",
+                          "reload:private-np:reloaded"])),
            ("sweep-public-reload", task_sweep,
             dict(configs=["reload:public:customised", "reload:public:private-while-customised",
-                          "reload:public:reloaded", "reload:public:private-after-reload"]))]
+                          "reload:public:customised-after-falsy-init",
+                          "reload:public:reloaded", "reload:public:private-after-reload"])),
+           ("sweep-public-reload-np", task_sweep,
+            dict(configs=["reload:public-np:customised", "reload:public-np:customised-after-falsy-init",
+                          "reload:public-np:reloaded"]))]
     if tier == "quick":
         out += [("notation-a", task_notation, dict(n=2500)),
                 ("notation-b", task_notation, dict(n=2500))]
